@@ -252,3 +252,40 @@ fn c17_polyn<const N: usize, const M: usize>() {
 #[kani::proof] #[kani::unwind(8)] fn c17_polyn_2_3() { c17_polyn::<2, 3>() }
 #[kani::proof] #[kani::unwind(8)] fn c17_polyn_0_1() { c17_polyn::<0, 1>() }
 #[kani::proof] #[kani::unwind(8)] fn c17_polyn_0_0() { c17_polyn::<0, 0>() }
+
+// full-range coefficients (any finite double) with the two scalars whose products CBMC can afford: 2.0 and -1.0
+macro_rules! c14_mulassign_full {
+    ($name:ident, $t:ident, $n:expr) => {
+        #[kani::proof]
+        #[kani::unwind(12)]
+        fn $name() {
+            let mut c = [0.0f64; $n];
+            let mut i = 0;
+            while i < $n { c[i] = fin_any(); i += 1; }
+            const S2: [f64; 2] = [2.0, -1.0];
+            let mut si = 0;
+            while si < 2 {
+                let s = S2[si];
+                let a = $t(c) * s;
+                let mut b = $t(c);
+                b *= s;
+                let mut i = 0;
+                while i < $n {
+                    assert!(bits_eq(a.0[i], b.0[i]), "[spec] `*=` gives exactly the result of `*` (full-range coefficients)");
+                    assert!(bits_eq(a.0[i], c[i] * s), "[spec] every coefficient is the correctly rounded product s*c (full-range coefficients)");
+                    i += 1;
+                }
+                si += 1;
+            }
+            kani::cover!(true, "[cover] reachable");
+        }
+    };
+}
+c14_mulassign_full!(c14_mulassign_full_poly1, Poly1, 2);
+c14_mulassign_full!(c14_mulassign_full_poly2, Poly2, 3);
+c14_mulassign_full!(c14_mulassign_full_poly3, Poly3, 4);
+c14_mulassign_full!(c14_mulassign_full_poly4, Poly4, 5);
+c14_mulassign_full!(c14_mulassign_full_poly5, Poly5, 6);
+c14_mulassign_full!(c14_mulassign_full_poly6, Poly6, 7);
+c14_mulassign_full!(c14_mulassign_full_poly7, Poly7, 8);
+c14_mulassign_full!(c14_mulassign_full_poly8, Poly8, 9);
